@@ -51,10 +51,14 @@ def gen(ctx, tier, rng):
             L.append("secretbox.nacl.box %s %s %s" % (hexs(bytes(32) + m), hexs(rb(rng, 24)), hexs(rb(rng, 32))))
     for n in range(0, 40):
         L.append("secretbox.nacl.box %s %s %s" % (hexs(bytes(n)), hexs(rb(rng, 24)), hexs(rb(rng, 32))))
-    # every ad length with a few message lengths
-    for adl in range(0, 71):
+    # every ad length across the internal block / aggregation boundaries (the property quantifies ad like the message:
+    # 0..~2 KiB), with a few message lengths
+    adls = list(range(0, 520)) + list(range(520, 2101, 16 if full else 61)) + [671, 672, 673, 895, 896, 897, 1023, 1024, 1025, 2047, 2048, 2049, 2100]
+    for adl in sorted(set(adls)):
         for (name, kb, nb) in AEADS:
-            L.append("aead.%s.enc %s %s %s %s" % (name, hexs(rb(rng, rng.choice([0, 1, 16, 33]))), hexs(rb(rng, adl)), hexs(rb(rng, nb)), hexs(rb(rng, kb))))
+            if not full and adl > 70 and name in ("chachapoly", "xchachapoly") and adl % 3:
+                continue
+            L.append("aead.%s.enc %s %s %s %s" % (name, hexs(rb(rng, rng.choice([0, 1, 16, 33, 224, 300]))), hexs(rb(rng, adl)), hexs(rb(rng, nb)), hexs(rb(rng, kb))))
     for _ in range(40 if not full else 300):
         for v in ("xsalsa", "xchacha"):
             L.append("box.beforenm %s %s %s" % (v, hexs(rb(rng, 32)), hexs(rb(rng, 32))))
